@@ -814,20 +814,30 @@ def c02_jobs(tier):
         for op in range(C01_NOPS):
             jobs.append({"func": f"verif_C02_scalar_{rt}", "args": [op, 0], "mode": "real", "tag": f"{rt} op={op}"})
             jobs.append({"func": f"verif_C02_scalar_{rt}", "args": [op, 2], "mode": "real", "tag": f"{rt} op={op} magic"})
+    for recv in (0, 1):
+        for ta in range(8):
+            for tb in range(8):
+                if tier == "quick" and (ta + 3 * tb + recv) % 3 != 0 and not (ta in (0, 1) and tb == 3):
+                    continue
+                jobs.append({"func": "verif_C02_mixed", "args": [recv, ta, tb], "mode": "fp", "intmode": "bv", "tag": f"recv={recv} a={ta} b={tb}"})
+    for ty in range(3):
+        jobs.append({"func": "verif_C02_int", "args": [ty], "mode": "fp", "intmode": "bv"})
+    for fr in range(3):
+        jobs.append({"func": "verif_C02_convert", "args": [fr], "mode": "fp", "intmode": "bv"})
     return jobs
 
 
 PROPS["C02"] = {
-    "overlay": [RT, SCALAR_COMMON, _scalar_real("Real64"), _scalar_real("Real32"), _c01("Real64"), _c01("Real32")],
+    "overlay": [RT, SCALAR_COMMON, _scalar_real("Real64"), _scalar_real("Real32"), _c01("Real64"), _c01("Real32"), ("root/zz_verif_c02_mixed.go", "zz_verif_c02_mixed.go")],
     "mode": "real", "intmode": "int",
     "jobs": c02_jobs,
-    "reach": ["scalar-spec"],
+    "reach": ["scalar-spec", "mixed", "int", "convert"],
     "replay_tol": 1e-6,
     "job_budget_ms": {"quick": 120000, "thorough": 900000},
     "selftest_vars": [],
-    "bounds": {"quick": "value of 27 elementary Real64 operations equals the named function written in the harness over the same libm heads, on every branch of the piecewise definitions, with and without derivative tracking; real interpretation",
+    "bounds": {"quick": "mixed-type operand pairs (ConstInt, ConstInt8, ConstFloat32, ConstFloat64, Int, Float32, Real64, ConstInt64) for Min/Max/Add/Sub/Mul/Greater/Smaller on Real64 and Float64 receivers (fp, bit-vector ints); Int/Int8/Int32 ring operations, comparisons, sign, min, max, abs against Go's operators on fully symbolic bit-vector operands; ConvertScalar/ConvertConstScalar between the float types; value of 27 elementary Real64 operations equals the named function written in the harness over the same libm heads, on every branch of the piecewise definitions, with and without derivative tracking; real interpretation",
                "thorough": "also Real32"},
-    "outside": "accuracy of libm and special.*; the integer scalar types, type conversions and cross-type agreement (not yet encoded); IEEE special values",
+    "outside": "accuracy of libm and special.*; IEEE special values; conversions to and from the integer types",
     "assumptions": ["floats read as reals; libm heads uninterpreted (value equality means: same head applied to the same argument, or provable from the lemma instances)"],
 }
 
